@@ -22,8 +22,10 @@ ASSUMES = ["a two-site step on (i,i+1) accounts for the one-site terms of i and 
 HEADER = "From Coq Require Import List. Import ListNotations.\nFrom Yaqs Require Import Model.TdvpSweep."
 
 
-def trace_sweep(dims, cap, seed=0):
-    """dims: right bond dimension of sites 0..L-2.  Returns (steps, ones_f, ones_b)."""
+def trace_sweep(dims, cap, seed=0, reuse=False):
+    """dims: right bond dimension of sites 0..L-2.  Returns (steps, ones_f, L, ops): ops[k] = indices of the operator tensors
+    of the Hamiltonian GIVEN TO THIS CALL that make up the operator handed to step k (None when it is none of them).
+    reuse: the MPO object has been used for a run with a different operator before and was rebuilt in place."""
     import mqt.yaqs.core.methods.tdvp as T
     from mqt.yaqs.core.data_structures.networks import MPO, MPS
     from mqt.yaqs.core.data_structures.simulation_parameters import AnalogSimParams, Observable
@@ -38,7 +40,13 @@ def trace_sweep(dims, cap, seed=0):
     st = MPS(L, tensors=tens, physical_dimensions=[2] * L)
     p = AnalogSimParams([Observable("z", 0)], elapsed_time=0.1, dt=0.1, max_bond_dim=cap, threshold=1e-14, show_progress=False)
     H = MPO.ising(L, 1.0, 0.5)
-    steps, phase = [], {"half": "f", "last": None}
+    if reuse:
+        H = MPO()
+        H.custom([t.copy() for t in MPO.ising(L, 0.3, 1.1).tensors], transpose=False)
+        warm = MPS(L, tensors=[t.copy() for t in tens], physical_dimensions=[2] * L)
+        T.local_dynamic_tdvp(warm, H, p)  # a complete earlier run with the previous content of the object
+        H.custom([t.copy() for t in MPO.ising(L, 1.0, 0.5).tensors], transpose=False)
+    steps, ops, phase = [], [], {"half": "f", "last": None}
     ones_f = [bool(t.shape[2] >= cap) for t in st.tensors]
     ones_b = [None] * L
     saved = (T.update_site, T.update_bond, T.merge_mps_tensors)
@@ -59,17 +67,21 @@ def trace_sweep(dims, cap, seed=0):
         if "pair" in pending:
             i = pending.pop("pair")
             steps.append(("P", i))
+            want = T.merge_mpo_tensors(H.tensors[i], H.tensors[i + 1])
+            ops.append([i, i + 1] if op.shape == want.shape and np.array_equal(op, want) else None)
             if phase["half"] == "b" or (steps and _is_backward(steps)):
                 ones_b[i + 1] = False
             phase["last"] = ("P", i)
         else:
             i = which(tensor)
             steps.append(("S", i, fwd))
+            ops.append([k for k, w in enumerate(H.tensors) if w is op] or None)
             phase["last"] = ("S", i, fwd)
         return tensor
 
     def upd_bond(left, right, bond, dt):
         steps.append(("B", None))
+        ops.append([])
         return bond
 
     def _is_backward(_):
@@ -80,7 +92,7 @@ def trace_sweep(dims, cap, seed=0):
         T.local_dynamic_tdvp(st, H, p)
     finally:
         T.update_site, T.update_bond, T.merge_mps_tensors = saved
-    return steps, ones_f, L
+    return steps, ones_f, L, ops
 
 
 def split_halves(steps, L):
@@ -124,7 +136,8 @@ def correspond(ctx):
         L = int(ctx.rng.integers(2, 9))
         cap = int(ctx.rng.choice([1, 2, 3, 4, 8]))
         dims = [int(min(ctx.rng.choice([1, 2, 3, 4]), 2 ** min(i + 1, L - 1 - i))) for i in range(L - 1)]
-        steps, ones_f, _ = trace_sweep(dims, cap, seed=k)
+        reuse = k % 3 == 2
+        steps, ones_f, _, ops = trace_sweep(dims, cap, seed=k, reuse=reuse)
         fwd, back = split_halves(steps, L)
         ob = infer_back_decisions(back, L)
         # sites without an own decision step in the backward half (skipped or covered by a pair): fill consistently
@@ -132,10 +145,17 @@ def correspond(ctx):
             if ob[i] is None:
                 ob[i] = False if i == 0 else (cap <= 1)
         impl.append(steps)
-        exprs.append(f"sweep {g_list([g_bool(b) for b in ones_f])} {g_list([g_bool(b) for b in ob])}")
-        cases.append(dict(L=L, cap=cap, dims=dims, ones_f=ones_f, ones_b=ob))
+        sw = f"sweep {g_list([g_bool(b) for b in ones_f])} {g_list([g_bool(b) for b in ob])}"
+        exprs.append(f"({sw}, map step_ops ({sw}))")
+        cases.append(dict(L=L, cap=cap, dims=dims, ones_f=ones_f, ones_b=ob, reuse=reuse, ops=ops))
     vals = common.coq_eval_sharded(HEADER, exprs, tag="c05")
-    for c, steps, v in zip(cases, impl, vals):
+    for c, steps, (v, mops) in zip(cases, impl, vals):
+        ops = c.pop("ops")
+        ctx.count("reused_operator_object" if c["reuse"] else "fresh_operator_object")
+        if ops != [list(o) for o in mops]:
+            bad = [k for k, (a, b) in enumerate(zip(ops, mops)) if a != list(b)]
+            ctx.mismatch("operator tensors handed to the local steps vs TdvpSweep.step_ops (tensors of the Hamiltonian given to this call)",
+                         c, [ops[k] for k in bad[:4]], [list(mops[k]) for k in bad[:4]], key="operator")
         mixed = len(set(c["ones_f"][:-1])) > 1
         ctx.case(nontrivial_key=(tuple(c["dims"]), c["cap"]) if mixed else None, validated=True,
                  sample={**c, "steps": steps} if mixed and c["L"] > 3 else None)
@@ -161,6 +181,13 @@ def ham(kind, L, rng):
     if kind == "heisenberg":
         a, b, c, h = (float(x) for x in rng.uniform(0.2, 1.0, size=4))
         return MPO.heisenberg(L, a, b, c, h), dense.heisenberg(L, a, b, c, h)
+    terms, hd = pauli_terms(L, rng)
+    m = MPO()
+    m.from_pauli_sum(terms=terms, length=L)
+    return m, hd
+
+
+def pauli_terms(L, rng):
     terms, hd = [], np.zeros((2**L, 2**L), dtype=complex)
     for i in range(L):
         for p in "XZ":
@@ -172,9 +199,7 @@ def ham(kind, L, rng):
         c = float(rng.uniform(-1, 1))
         terms.append((c, f"{p}{i} {q}{i + 1}"))
         hd += c * dense.op_on(L, {i: dense.PAULI[p], i + 1: dense.PAULI[q]})
-    m = MPO()
-    m.from_pauli_sum(terms=terms, length=L)
-    return m, hd
+    return terms, hd
 
 
 def evolve_real(L, H, state, dt, T, order, mode):
@@ -196,6 +221,11 @@ def convergence_oracle(args):
     rng = np.random.default_rng(args["seed"])
     L, mode, order = args["L"], args["mode"], args["order"]
     H, hd = ham(args["ham"], L, rng)
+    if args.get("reuse"):
+        # history: the same MPO object carried another operator in an earlier run and is rebuilt in place
+        evolve_real(L, H, args["state"], 0.1, 0.2, order, mode)
+        terms, hd = pauli_terms(L, rng)
+        H.from_pauli_sum(terms=terms, length=L)
     v0 = dense.mps_dense(MPS(L, state=args["state"]))
     v0 /= np.linalg.norm(v0)
     T = 0.4
@@ -234,7 +264,8 @@ def search(ctx):
     states = ["zeros", "x+", "Neel", "wall", "y+", "ones"]
     for k in range(ctx.scale(10, 150)):
         plan.append(dict(seed=int(ctx.rng.integers(0, 2**31)), L=int(ctx.rng.integers(2, 5 if ctx.quick else 6)), ham=["ising", "heisenberg", "pauli"][k % 3],
-                         state=states[k % len(states)], mode="TDVP" if k % 4 else "BUG", order=1 + k % 2, compare_orders=(k % 5 == 0)))
+                         state=states[k % len(states)], mode="TDVP" if k % 4 else "BUG", order=1 + k % 2, compare_orders=(k % 5 == 0),
+                         reuse=(k % 3 == 2 and k % 4 != 0)))
     for a in plan:
         if a["mode"] == "BUG":
             a["order"] = 2
@@ -256,7 +287,7 @@ def replay(ctx, data):
     if rp.get("oracle") == "conv":
         return convergence_oracle(rp["args"])
     if rp.get("oracle") == "budget":
-        steps, _, _ = trace_sweep(rp["dims"], rp["cap"])
+        steps = trace_sweep(rp["dims"], rp["cap"])[0]
         st = sum((1 if s[2] else -1) for s in steps if s[0] == "S") + 2 * sum(1 for s in steps if s[0] == "P")
         return f"site time {st}" if st != 2 * rp["L"] else None
     return "re-run the check: " + "; ".join(b["what"] for b in data.get("broken", []))
